@@ -56,8 +56,16 @@ class GroundedPrecondition:
         :param parameters_map: the mapping between the lifted and the grounded objects.
         :return: the grounded objects that should/n't be equal.
         """
+
+        def ground_term(term: str) -> str:
+            # a domain constant stands for itself, a variable has to be bound.
+            if term in parameters_map or term.startswith("?"):
+                return parameters_map[term]
+
+            return term
+
         return {
-            (parameters_map[obj1], parameters_map[obj2])
+            (ground_term(obj1), ground_term(obj2))
             for obj1, obj2 in equality_preconditions
         }
 
